@@ -162,8 +162,9 @@ CHECKS.update({
              "conditions; every line the automaton judges valid and every group is rendered and run through NewDialogueRunner/Next (Text, Tags, order, Disabled compared), the "
              "automaton's validity verdict is cross-checked against ANTLR, and random long lines with inline expressions of every type are trace-validated.",
         design_ref="DESIGN.md section 6 (C04), appendix F",
-        note="23 item classes, all sequences of length <= 3 (quick) / <= 4 (thorough); numbers dyadic in the exact window; no unescaped [ ] (markup is C13's); display of huge / tiny "
-             "doubles (exponent forms) is outside the decided window.",
+        note="23 item classes, all sequences of length <= 3 (quick) / <= 4 (thorough); numbers dyadic in the exact window; no unescaped [ ] (markup is C13's); for doubles outside "
+             "the exact window only this is decided (WideArithTrace, bit patterns as tokens): what the line shows reads back as the number, integral numbers below 2^63 have no decimal point; "
+             "option groups re-presented while conditions change are decided on the runner specification (family optcond).",
         technique="TLA+ lexer-mode automaton vs declarative meaning (TLC) + exhaustive line replay + trace validation",
     ),
     "C17": dict(
